@@ -113,7 +113,7 @@ R8={
  "C11":"Arity edits: every argument list of every source string with one argument removed / repeated / all removed.",
  "C12":"The multisig kinds of the other script family in every context; parsers judged also where the constructor refuses.",
  "C13":"or_c macro fragments in every hole of the shared families.",
- "C14":"Stale-signatures configuration: signatures made for another transaction, nothing that needs a signature may be finalized.",
+ "C14":"Stale-signatures configuration: signatures made for another transaction, nothing that needs a signature may be finalized. Output updates: recorded scripts / origins / tap tree of every family member's output, foreign outputs refused and untouched, the _unchecked trait methods equal the checked entry points.",
  "C20":"Translation into multipath keys: 81 path-tuple length assignments x 7 descriptors, accepted iff every single script agrees.",
 }
 for _k,_add in R8.items():
